@@ -167,7 +167,16 @@ def rank_work(payload):
                             if _norm(got) != _norm(want):
                                 res.violation("restrict:l_list", "l_list=%r gives %r, expected %r" % (sub, got, want), case)
                             elif got:
-                                mm = np.asarray(d2.get_cg_matrix(), dtype=float).reshape(len(got), -1)
+                                # the restriction must hold on every call, and the coupling matrix must have one row per offered coupling
+                                again = list(d2.get_ls_list())
+                                cgm = np.asarray(d2.get_cg_matrix(), dtype=float)
+                                if _norm(again) != _norm(want):
+                                    res.violation("restrict:l_list-second-call", "l_list=%r: a second get_ls_list() gives %r, the first gave %r" % (sub, again, got), case)
+                                    continue
+                                if cgm.shape[0] != len(got):
+                                    res.violation("restrict:matrix-rows", "l_list=%r: %d couplings offered but the coupling matrix has %d rows" % (sub, len(got), cgm.shape[0]), case)
+                                    continue
+                                mm = cgm.reshape(len(got), -1)
                                 if int(np.linalg.matrix_rank(mm, tol=1e-9)) != len(got):
                                     res.violation("restrict:rank", "l_list=%r: restricted coupling matrix is rank deficient" % (sub,), case)
                     for sub in list(itertools.combinations(ls_all, 1))[:3] + list(itertools.combinations(ls_all, 2))[:3]:
